@@ -7,6 +7,7 @@ import (
 	"encoding/hex"
 	"errors"
 	"fmt"
+	"math/big"
 	"strings"
 
 	"golang.org/x/crypto/ssh"
@@ -36,6 +37,42 @@ func parseDERData(b []byte) Info {
 	} else {
 		return UnknownASN1Data
 	}
+}
+
+// unmarshalWhole is asn1.Unmarshal for a value that must be the whole of der: nothing may follow it, and the content of
+// its outer SEQUENCE must be a series of complete elements, which are returned. encoding/asn1 alone ignores elements
+// that follow the last field of a structure, so that any SEQUENCE beginning like a key would be taken for that key; each
+// caller compares the number of elements with the number its structure has a place for.
+func unmarshalWhole(der []byte, v any) ([]asn1.RawValue, error) {
+	rest, err := asn1.Unmarshal(der, v)
+	if err != nil {
+		return nil, err
+	}
+	if len(rest) != 0 {
+		return nil, errors.New("data after the structure")
+	}
+	var outer asn1.RawValue
+	if _, err = asn1.Unmarshal(der, &outer); err != nil {
+		return nil, err
+	}
+	var elements []asn1.RawValue
+	for b := outer.Bytes; len(b) > 0; {
+		var e asn1.RawValue
+		if b, err = asn1.Unmarshal(b, &e); err != nil {
+			return nil, err
+		}
+		elements = append(elements, e)
+	}
+	return elements, nil
+}
+
+var errNotThisStructure = errors.New("the SEQUENCE holds something else than this structure")
+
+func present(b bool) int {
+	if b {
+		return 1
+	}
+	return 0
 }
 
 func parseCertificate(der []byte) (Info, error) {
@@ -249,9 +286,13 @@ func parsePKCS1PublicKey(der []byte) (Info, error) {
 	}
 
 	var k asn1struct.PKCS1PublicKey
-	_, err := asn1.Unmarshal(der, &k)
+	elements, err := unmarshalWhole(der, &k)
 	if err != nil {
 		return UnknownASN1Data, err
+	}
+	// RSAPublicKey is exactly a modulus and a public exponent, both positive
+	if len(elements) != 2 || k.N.Sign() <= 0 || k.E.Sign() <= 0 {
+		return UnknownASN1Data, errNotThisStructure
 	}
 
 	info.Attributes = pkcs1PublicKeyAttributes(k)
@@ -265,9 +306,12 @@ func parsePKIXPublicKey(der []byte) (Info, error) {
 	}
 
 	var k asn1struct.PKIXPublicKey
-	_, err := asn1.Unmarshal(der, &k)
+	elements, err := unmarshalWhole(der, &k)
 	if err != nil {
 		return UnknownASN1Data, err
+	}
+	if len(elements) != 2 {
+		return UnknownASN1Data, errNotThisStructure
 	}
 
 	info.Attributes = pkixPublicKeyAttributes(k)
@@ -281,9 +325,18 @@ func parsePKCS8PrivateKey(der []byte) (Info, error) {
 	}
 
 	var k asn1struct.PKCS8PrivateKey
-	_, err := asn1.Unmarshal(der, &k)
+	elements, err := unmarshalWhole(der, &k)
 	if err != nil {
 		return UnknownASN1Data, err
+	}
+	// OneAsymmetricKey (RFC 5958): version 0 or 1; after the three fields only [0] attributes and [1] publicKey may follow
+	if k.Version != 0 && k.Version != 1 {
+		return UnknownASN1Data, errNotThisStructure
+	}
+	for _, e := range elements[3:] {
+		if e.Class != asn1.ClassContextSpecific || e.Tag > 1 {
+			return UnknownASN1Data, errNotThisStructure
+		}
 	}
 
 	switch {
@@ -362,9 +415,13 @@ func parseECPrivateKey(der []byte) (Info, error) {
 	}
 
 	var k asn1struct.ECPrivateKey
-	_, err := asn1.Unmarshal(der, &k)
+	elements, err := unmarshalWhole(der, &k)
 	if err != nil {
 		return UnknownASN1Data, err
+	}
+	// ECPrivateKey (RFC 5915): version 1, the key, and the optional [0] parameters and [1] publicKey that were read
+	if k.Version != 1 || len(elements) != 2+present(len(k.NamedCurveOID) > 0 || k.Params.Order != nil)+present(k.PublicKey.Bytes != nil) {
+		return UnknownASN1Data, errNotThisStructure
 	}
 
 	info.Attributes = ecPrivateKeyAttributes(k)
@@ -378,9 +435,22 @@ func parsePKCS1PrivateKey(der []byte) (Info, error) {
 	}
 
 	var k asn1struct.PKCS1PrivateKey
-	_, err := asn1.Unmarshal(der, &k)
+	elements, err := unmarshalWhole(der, &k)
 	if err != nil {
 		return UnknownASN1Data, err
+	}
+	// RSAPrivateKey (RFC 8017): version 0 or 1, a positive modulus and public exponent, no element beyond those read, and
+	// a modulus that is the product of the primes (six integers alone are also the shape of a traditional DSA key)
+	if (k.Version != 0 && k.Version != 1) || k.N.Sign() <= 0 || k.E.Sign() <= 0 ||
+		len(elements) != 6+present(k.Dp != nil)+present(k.Dq != nil)+present(k.Qinv != nil)+present(len(k.AdditionalPrimes) > 0) {
+		return UnknownASN1Data, errNotThisStructure
+	}
+	product := new(big.Int).Mul(k.P, k.Q)
+	for _, a := range k.AdditionalPrimes {
+		product.Mul(product, a.Prime)
+	}
+	if product.Cmp(k.N) != 0 {
+		return UnknownASN1Data, errNotThisStructure
 	}
 
 	info.Attributes = pkcs1PrivateKeyAttributes(k)
@@ -390,9 +460,13 @@ func parsePKCS1PrivateKey(der []byte) (Info, error) {
 
 func parseDSAPrivateKey(der []byte) (Info, error) {
 	var k asn1struct.DSAPrivateKey
-	_, err := asn1.Unmarshal(der, &k)
+	elements, err := unmarshalWhole(der, &k)
 	if err != nil {
 		return UnknownASN1Data, err
+	}
+	// the traditional DSA private key is exactly: version 0, p, q, g, y, x
+	if k.Version != 0 || len(elements) != 6 || k.P.Sign() <= 0 {
+		return UnknownASN1Data, errNotThisStructure
 	}
 
 	return Info{
